@@ -341,8 +341,17 @@ macro_rules! bezier_impl_cubic_axis {
                 // There are two Real solutions for the equation
                 let discriminant_sqrt = discriminant.sqrt();
 
-                let first_extremum = (-b - discriminant_sqrt) / (a + a);
-                let second_extremum = (-b + discriminant_sqrt) / (a + a);
+                // NOTE: (-b ± sqrt) / 2a cancels catastrophically for the root where -b and ±sqrt have
+                // opposite signs as soon as |4ac| is small next to b² (a nearly parabolic cubic, such as a
+                // quadratic curve after `into_cubic()`, whose `a` is a few ulps): get that root from the
+                // product of the roots (c/a) instead.
+                let (first_extremum, second_extremum) = if b < T::zero() {
+                    let q = (-b + discriminant_sqrt) / two;
+                    (c / q, q / a)
+                } else {
+                    let q = (-b - discriminant_sqrt) / two;
+                    (q / a, c / q)
+                };
 
                 if is_between01(first_extremum) {
                     if is_between01(second_extremum) {
